@@ -93,13 +93,15 @@ Inductive node :=
 | NIn (i : nat)                                       (* VALUES of the i-th createDataFrame *)
 | NSel (ctx : list nat) (b : block) (u : option nat) (from : node)
                                                       (* SELECT b FROM from [WHERE 'uuid' = 'uuid'] *)
-| NSet (ctx : list nat) (k : sclass) (d : bool) (bl : block) (fl : node) (br : block) (fr : node).
-                                                      (* SELECT bl FROM fl <k> [ALL] SELECT br FROM fr *)
+| NSet (ctx : list nat) (k : sclass) (d : bool) (u : option nat) (bl : block) (fl : node) (br : block) (fr : node).
+                                                      (* SELECT bl FROM fl <k> [ALL] SELECT br FROM fr;  with u = Some _ :
+                                                         SELECT <its columns> FROM (that) AS _dedup WHERE 'uuid' = 'uuid' *)
 (** [ctx]: a CTE is named by the hash of the text of the WHOLE query at that moment (WITH list included), so
     two CTEs with the same body get the same name only if their WITH lists agree as well.  WITH lists of
     equal bodies can differ only in the uuid filters they contain; [ctx] is the list of those uuids.  A node
     used as a CTE body (not as a name) has ctx = []. *)
-Definition own_uuid (b : node) : list nat := match b with NSel _ _ (Some u) _ => [u] | _ => [] end.
+Definition own_uuid (b : node) : list nat :=
+  match b with NSel _ _ (Some u) _ => [u] | NSet _ _ _ (Some u) _ _ _ _ => [u] | _ => [] end.
 Definition uuids_of (cs : list (node * node)) : list nat := flat_map (fun p => own_uuid (snd p)) cs.
 
 Definition binop_eq_dec (a b : binop) : {a = b} + {a <> b}. Proof. decide equality. Defined.
@@ -117,10 +119,11 @@ Proof.
   - apply list_eq_dec, expr_eq_dec.
 Defined.
 Definition sclass_eq_dec (a b : sclass) : {a = b} + {a <> b}. Proof. decide equality. Defined.
+Definition optnat_eq_dec (a b : option nat) : {a = b} + {a <> b}.
+Proof. decide equality. apply Nat.eq_dec. Defined.
 Definition node_eq_dec (a b : node) : {a = b} + {a <> b}.
 Proof.
-  decide equality; auto using block_eq_dec, bool_dec, sclass_eq_dec, Nat.eq_dec, (list_eq_dec Nat.eq_dec).
-  decide equality. apply Nat.eq_dec.
+  decide equality; auto using block_eq_dec, bool_dec, sclass_eq_dec, Nat.eq_dec, (list_eq_dec Nat.eq_dec), optnat_eq_dec.
 Defined.
 
 Definition setop_frames (s : bagsem) (L R : frame) : option frame :=
@@ -133,15 +136,20 @@ Definition setop_frames (s : bagsem) (L R : frame) : option frame :=
 Definition operand_ok (b : block) : bool :=
   match b_order b, b_limit b with [], None => true | _, _ => false end.
 
+(** a set-operation CTE that was de-duplicated is read through SELECT <the first operand's names> FROM (..) *)
+Definition dedup_select (u : option nat) (bl : block) (G : frame) : frame :=
+  match u with Some _ => eval_block (pass_block (out_cols (b_sel bl))) G | None => G end.
+
 (** intended meaning of a name = meaning of the text it was hashed from *)
 Fixpoint den (inputs : list frame) (n : node) : option frame :=
   match n with
   | NIn i => nth_error inputs i
   | NSel _ b _ f => option_map (eval_block b) (den inputs f)
-  | NSet _ k d bl fl br fr =>
+  | NSet _ k d u bl fl br fr =>
       match den inputs fl, den inputs fr with
       | Some L, Some R => if operand_ok bl && operand_ok br
-                          then setop_frames (sql_sem (k, d)) (eval_block bl L) (eval_block br R) else None
+                          then option_map (dedup_select u bl)
+                                          (setop_frames (sql_sem (k, d)) (eval_block bl L) (eval_block br R)) else None
       | _, _ => None
       end
   end.
@@ -160,10 +168,11 @@ Definition eval_body (inputs : list frame) (e : env) (b : node) : option frame :
   match b with
   | NIn _ => None
   | NSel _ blk _ f => option_map (eval_block blk) (resolve inputs e f)
-  | NSet _ k d bl fl br fr =>
+  | NSet _ k d u bl fl br fr =>
       match resolve inputs e fl, resolve inputs e fr with
       | Some L, Some R => if operand_ok bl && operand_ok br
-                          then setop_frames (sql_sem (k, d)) (eval_block bl L) (eval_block br R) else None
+                          then option_map (dedup_select u bl)
+                                          (setop_frames (sql_sem (k, d)) (eval_block bl L) (eval_block br R)) else None
       | _, _ => None
       end
   end.
@@ -205,21 +214,22 @@ Definition with_df (s : st) (d : df) : st := mkSt (s_pre s) (s_base s) (s_ics s)
 Definition wrapS (s : st) : st := with_df s (wrap (s_df s)).
 
 (** [_add_ctes_to_expression]: append the other side's CTEs; on a name collision the incoming CTE gets a
-    uuid filter and a fresh hash name, and later incoming CTEs are re-pointed to it.  Only a SELECT has
-    [.where]: a colliding set-operation CTE raises AttributeError (None). *)
+    uuid filter and a fresh hash name, and later incoming CTEs are re-pointed to it.  A set-operation CTE has
+    no WHERE of its own: it is filtered through a SELECT of its columns over it. *)
 Definition rn (ren : list (node * node)) (x : node) : node :=
   match assoc x ren with Some y => y | None => x end.
 Definition rename (ren : list (node * node)) (b : node) : node :=
   match b with
   | NIn i => NIn i
   | NSel us blk u f => NSel us blk u (rn ren f)
-  | NSet us k d bl fl br fr => NSet us k d bl (rn ren fl) br (rn ren fr)
+  | NSet us k d u bl fl br fr => NSet us k d u bl (rn ren fl) br (rn ren fr)
   end.
 (** the new name is the hash of the filtered body alone (no WITH list): ctx = [] *)
 Definition add_uuid (u : nat) (b : node) : option node :=
   match b with
   | NSel _ blk _ f => Some (NSel [] blk (Some u) f)
-  | _ => None
+  | NSet _ k d _ bl fl br fr => Some (NSet [] k d (Some u) bl fl br fr)
+  | NIn _ => None
   end.
 Fixpoint merge (u : nat) (names : list node) (ren : list (node * node)) (acc inc : list (node * node))
   : option (nat * list (node * node)) :=
@@ -247,8 +257,8 @@ Section Compile.
     | None => None
     | Some (u', cs) =>
         let '(k, d) := f_flags f m in
-        let mk := fun us => if f_swap f then NSet us k d (cur (s_df R1)) (top R1) (cur (s_df L)) (top L)
-                            else NSet us k d (cur (s_df L)) (top L) (cur (s_df R1)) (top R1) in
+        let mk := fun us => if f_swap f then NSet us k d None (cur (s_df R1)) (top R1) (cur (s_df L)) (top L)
+                            else NSet us k d None (cur (s_df L)) (top L) (cur (s_df R1)) (top R1) in
         let n := mk (uuids_of cs) in
         let names := out_cols (b_sel (if f_swap f then cur (s_df R1) else cur (s_df L))) in
         Some (mkSt (cs ++ [(n, mk [])]) n names (mkDf [] (pass_block names) nk), u')
